@@ -63,7 +63,8 @@ class LayerMerger(LayerMerger):
             if (((layer_opts and not layer_opts.transparent) or image_opts.transparent)
                 and (not size or size == layer_img.size)
                 and (not layer_coverage or not layer_coverage.clip)
-                    and not coverage):
+                    and not coverage
+                    and (not layer_opts or layer_opts.opacity is None or layer_opts.opacity >= 1.0)):
                 # layer is opaque, no need to make transparent or add bgcolor
                 return layer_img
 
